@@ -5,6 +5,7 @@
    `late` is ANY validation a user subclass performs in its own __post_init__ after super().__post_init__() has given
    the new node its id and registered it (late s a = true: it raises for the node at address a just built in state s). *)
 From Oak Require Import Model.Registry Proofs.RegistryProofs Proofs.RegistryReach.
+From Oak Require Import Model.RegistrySer Proofs.RegistrySerProofs.
 
 (* ---- the invariant is inductive over every history of public operations ---- *)
 Theorem C03_inv_init : forall n, RInv (init_st n).
@@ -146,3 +147,61 @@ Theorem C03_repaired_double_detach :
   let s := run demo_H demo_ct no_late true (init_st 2) demo_ops in
   exists c, cell_at s 1 = Some c /\ get_any s (k_id c) = Some 1.
 Proof. exact repaired_double_detach. Qed.
+
+(* ---- as_dict / as_obj as far as the registry is concerned (Model/RegistrySer.v: `ser_st` = the id-carrying value of a
+        held tree, `deser` = ASTNode._deserialize, node.py:258-283, `force_id` = its forced-id branch) ---- *)
+(* a registered id is answered by the registered node, whichever node that is (C04's premise "no other live node has
+   meanwhile taken over its id" is what makes it the original) *)
+Theorem C03_deser_registered : forall H ct late fuel s i c o ps ks b, lookup i (reg s) = Some b ->
+  deser H ct late (S fuel) s (SNode i c o ps ks) = DOk s b.
+Proof. exact deser_registered. Qed.
+(* the forced-id branch keeps the invariant: the fresh id is popped, the node just built carries and is registered under the
+   serialized id; if that id has an entry (see C03_refuted_forced_id_evicts_child) it is overwritten and the evicted node
+   is recorded in the ghost `det` *)
+Theorem C03_force_inv : forall s a cl i, Inv0 s -> cell_at s a = Some cl -> In (k_id cl, a) (reg s) -> k_id cl <> i ->
+  Inv0 (force_id s a cl i).
+Proof. exact force_inv. Qed.
+Theorem C03_force_no_takeover : forall s a cl i, lookup i (remove_id (k_id cl) (reg s)) = None ->
+  det (force_id s a cl i) = det s /\ get_any (force_id s a cl i) i = Some a.
+Proof. exact force_no_takeover. Qed.
+Theorem C03_force_frame : forall s a cl i x, x <> a -> cell_at (force_id s a cl i) x = cell_at s x.
+Proof. exact force_frame. Qed.
+(* the whole recursive reading - returning, or rejected half-way by a class's own validation - keeps Inv0 *)
+Theorem C03_deser_inv : forall H ct late fuel s v, Inv0 s ->
+  match deser H ct late fuel s v with
+  | DOk s' a => Inv0 s' /\ len_le s s' /\ a < length (heap s')
+  | DLate s' => Inv0 s' /\ len_le s s'
+  | DFuel => True
+  end.
+Proof. exact deser_inv. Qed.
+(* PARTIAL: as_dict/as_obj are not operations of `step`/`run` (so RInvS, C03_fail_frame and the correspondence run do not
+   cover them); what is proved is that the would-be step `x = as_obj(d)` + collection re-establishes RInv *)
+Theorem C03_asobj_step_inv_partial : forall H ct late fuel s v dst, RInv s ->
+  match deser H ct late fuel s v with
+  | DOk s' a => RInv (gc (set_var s' dst (Some a)))
+  | DLate s' => RInv (gc s')
+  | DFuel => True
+  end.
+Proof. exact deser_step_inv. Qed.
+(* the suffixed id of a twin survives the trip although no twin is registered any more (forced id) *)
+Example C03_ex_asobj_forced :
+  let s1 := run ex_H ex_ct no_late true ex_state [Drop 2] in
+  exists d s' a, ser_st ex_state 1 = Some d /\ get_any s1 (lit ")_1") = None /\ RInv s1
+    /\ deser ex_H ex_ct no_late 2 s1 d = DOk s' a /\ a = 3
+    /\ option_map k_id (cell_at s' a) = Some (lit ")_1") /\ get_any s' (lit ")_1") = Some a /\ get_any s' (lit ")") = None
+    /\ det s' = det s1.
+Proof.
+  eexists _, _, _. split; [vm_compute; reflexivity|]. split; [vm_compute; reflexivity|].
+  split; [apply run_inv; exact ex_state_inv|]. split; [vm_compute; reflexivity|]. vm_compute. repeat split.
+Qed.
+(* what the code does when the serialized id is taken over DURING the reading (one-character digest: collisions): a
+   detached child x and its parent p share an id; reading p's dict back re-creates the child under that id, then forces
+   the id onto the parent over the child's entry: the re-created child is referenced, was never detached by the
+   program, and get_any(child.id) returns the parent (reproduced on pyoak with ID_DIGEST_SIZE = 1, design.d/C03.md) *)
+Theorem C03_refuted_forced_id_evicts_child :
+  exists s' p, evict_res = DOk s' p /\ reg evict_s1 = [] /\
+    let s2 := gc (set_var s' 0 (Some p)) in
+    tree_of s2 p = [3; 2] /\ reachable s2 2 = true /\
+    option_map k_id (cell_at s2 2) = Some (lit "d") /\ option_map k_id (cell_at s2 3) = Some (lit "d") /\
+    get_any s2 (lit "d") = Some 3 /\ In 2 (det s2) /\ det evict_s1 = [0].
+Proof. exact refuted_forced_id_evicts_child. Qed.
